@@ -6,6 +6,9 @@ import os
 V = os.path.dirname(os.path.dirname(os.path.abspath(__file__)))
 
 CHECKS = {
+    "C15": dict(cat="model_checking", ref="§3.2, §4 C15", tech="TLA+ Interrupt.tla (two-goroutine protocol, safety + liveness) model-checked by TLC; engine executions with interrupts at every probe point / while idle / asynchronously under the race detector validated against VMTrace.tla",
+                text="Interrupt.tla models Interrupt() as lock / write value / store flag / unlock, ClearInterrupt as a lone atomic store, and the VM goroutine (poll before every instruction, native stretches without polls, error construction under the lock, nested exits that keep the flag, leaveAbrupt at the outermost exit, job drain); TLC checks Prompt (<= 1 instruction after the flag is visible), CarriesSetValue, IdleClean, NestedKeepsFlag and the liveness property Stops over all interleavings, and must reject the poll-every-3rd-instruction mutation (vacuity control). The engine is then driven with Interrupt(v) at every probe point of generated and hand-written programs (generators, async functions, promise jobs, getters, comparator/iterator callbacks, proxies, nested RunProgram and Go->JS calls), with and without a preceding idle Interrupt+ClearInterrupt, with Interrupt while idle, and from a second goroutine at random delays in a -race build; every execution's event trace must be a behaviour of VMTrace.tla (IntSeen only after IntSet, only uncatchable unwinding afterwards, no catch/finally/iterator close, IntLate <= 1, flag and queue cleared exactly at the outermost exit) and each run must return InterruptedError carrying v, log nothing after the interrupt and leave a reusable Runtime.",
+                note="Trusts TLC, the hooks (a52bad1, f340b8d), the Go race detector as the data-race oracle, and the vmtrace driver. Asynchronous positions are sampled, not enumerated."),
     "C03": dict(cat="model_checking", ref="§3.1, §4 C03", tech="TLA+ VMTrace.tla (control state of a Runtime) checked by TLC against event traces recorded from the real engine (trace validation) over fault-enumerated histories",
                 text="VMTrace.tla specifies the VM's stack discipline (call/try/iterator stacks, handler phases, re-entrant unwinding, generator suspend/resume re-basing, API entry/exit) with the properties Idle (nothing left at the outermost exit, flag and queue cleared after an abrupt one), Nesting (exit registers = entry registers), FrameWF, Unwind and Uncatchable built into its enabling conditions. The engine, built with the verif hooks, records one event per critical section; TLC accepts a trace only if every event is an enabled action and every logged stack length equals the model's. Histories: programs with probe() at every statement boundary x every probe position x {thrown value, Go error, interrupt, foreign Go panic} + call-depth limits, over generated bodies (incl. generators) and hand-written generator/async/promise/proxy/class/re-entrant scenarios; additionally each faulted Runtime must run a fixed script exactly like a fresh Runtime.",
                 note="Trusts TLC, the hooks (a52bad1, add-only, compiled out without -tags verif), the vmtrace driver and the white-box register accessor. A rejected trace has no counterexample: the failing event and its predecessors are reported. Queued jobs are not required to be dropped after a FOREIGN Go panic."),
